@@ -438,7 +438,7 @@ func (e *Exec) assumeEnsures(s, pre *State, sp *FuncSpec, scopeFn *ssa.Function,
 		pv[k] = v
 	}
 	bindResults(pv, results, rv)
-	post := &Env{x: e, fn: scopeFn, cur: s, old: pre, vars: pv, oldEnv: oldEnv}
+	post := &Env{x: e, fn: scopeFn, cur: s, old: pre, vars: pv, oldEnv: oldEnv, hyp: true}
 	for _, en := range sp.Ensures {
 		c.assume(s.pc, post.evalBool(en.Expr))
 	}
@@ -703,13 +703,26 @@ func (e *Exec) run(entry *State, args Val) (Val, *State) {
 			}
 			li := &loopInfo{preA: s.A}
 			loops[b] = li
+			keep := e.unwrittenPrivate(s, body)
+			preHeaps := map[string]string{}
+			for k, v := range s.heaps {
+				preHeaps[k] = v
+			}
 			e.havocHeaps(s, mods.kinds, mods.allocs)
+			// locals whose address never escapes and that the loop does not write keep their contents
+			for _, a := range keep {
+				obj := s.regs[a][0]
+				for k := range mods.kinds {
+					c.assume(s.pc, c.B("(= (select %s %s) (select %s %s))", s.heaps[k], obj, preHeaps[k], obj))
+				}
+			}
 			for _, a := range hv {
 				e.assumeTyped(s, s.vars[a], a.Type().(*types.Pointer).Elem())
 			}
 			e.assumeAutoInvs(s, b)
 			if ls != nil {
 				env := e.envAt(s, true)
+				env.hyp = true
 				for _, inv := range ls.Invs {
 					c.assume(s.pc, env.evalBool(inv.Expr))
 				}
